@@ -146,53 +146,28 @@ def r2_slices(repo: Repo, rep):
     if fi is None:
         raise AnalysisError("Points._variable_slices vanished")
     rep.saw(fi)
-    for p in _ret_paths(fi):
-        lv = [k for k, it in p.loopvars.items() if dump(it) in ("self.space", "self.space.keys()")]
-        stores = [e for e in p.events if e.kind == "store"]
-        if not lv or len(stores) != 1:
-            rep.undecided(R, fi.site(), fi.fq, "one loop over self.space storing one slice per variable", f"loopvars {list(p.loopvars)} stores {len(stores)}")
-            continue
-        v = lv[0]
-        st = stores[0]
-        val = st.value
-        ok = dump(st.raw.slice) == v and isinstance(val, ast.Call) and attr_chain(val.func) == "slice" and len(val.args) >= 2
+    # partial evaluation on concrete spaces: the mapping must be {v: slice(sum of the earlier dims, that + dim_v)} in space order
+    from collections import OrderedDict
+    from ..absdom.listeval import Evaluator, Opaque, UNKNOWN
 
-        def atom(n, v=v):
-            if isinstance(n, ast.Subscript) and dump(n) == f"self.space[{v}]":
-                return RF.atom("D")
-            if isinstance(n, ast.Name):
-                return RF.atom(n.id)
-            return None
-        if ok:
-            try:
-                lo, hi = to_rf(val.args[0], atom), to_rf(val.args[1], atom)
-                ok = (hi - lo) == RF.atom("D")
-                # the start used in the first iteration is the initial value (a constant 0)
-                ok = ok and lo == RF.const(0)
-                detail = f"slice({lo!r}, {hi!r}) in the first iteration"
-            except NotPoly as e:
-                ok, detail = False, str(e)
-        else:
-            detail = dump(st.node)
-        rep.check(R, ok, fi.site(st.node), fi.fq, "slices[v] = slice(start, start + space[v]) starting at 0", detail, detail)
-        # advance: value of `start` after one iteration == D
-        nxt = p.env.get("start")
-        adv = False
-        if nxt is not None:
-            try:
-                adv = to_rf(nxt, atom) == RF.atom("D")
-            except NotPoly:
-                adv = False
-        else:
-            # other variable name: any local whose post-loop value is 0 + D
-            for k, e in p.env.items():
-                try:
-                    if to_rf(e, atom) == RF.atom("D") and k != v:
-                        adv = True
-                except NotPoly:
-                    pass
-        rep.check(R, adv, fi.site(), fi.fq, "start advances by exactly space[v] per variable (cumulative offsets)", f"start after one iteration = {dump(nxt)}", dump(nxt))
-        rep.check(R, dump(p.ret) in ("slices",) or isinstance(p.ret, (ast.Dict, ast.Name)), fi.site(), fi.fq, "returns the mapping", dump(p.ret)[:60], dump(p.ret)[:60])
+    def on_call(e, name, args, kws, ev, f):
+        if name == "slice" and 1 <= len(args) <= 3 and all(a is None or (isinstance(a, int) and not isinstance(a, bool)) for a in args):
+            return slice(*args)
+        return None
+    for dims in ((1,), (2, 1), (1, 2, 3), (3, 1, 2, 2)):
+        space = OrderedDict((chr(ord("a") + i), d) for i, d in enumerate(dims))
+        fr = Evaluator(None, on_call).run(fi.node.body, {"self": Opaque("self")}, attrs={"self.space": OrderedDict(space)})
+        got = fr.ret
+        want, off = OrderedDict(), 0
+        for k, d in space.items():
+            want[k] = (off, off + d)
+            off += d
+        label = f"space dims {dims}"
+        if not isinstance(got, dict) or any(not isinstance(x, slice) for x in got.values()):
+            rep.undecided(R, fi.site(), fi.fq, f"{label}: _variable_slices evaluable", repr(got)[:80])
+            continue
+        have = OrderedDict((k, (x.start or 0, x.stop)) for k, x in got.items() if x.step in (None, 1))
+        rep.check(R, list(have.items()) == list(want.items()), fi.site(), fi.fq, f"{label}: slices {dict(want)} (cumulative offsets, space order)", f"{dict(have)}", f"{label}: {dict(have)}")
     fi = P.methods.get("coordinates")
     if fi is None:
         raise AnalysisError("Points.coordinates vanished")
